@@ -1,7 +1,33 @@
 import Oracle.AccessUtil
+import MobiusModel.ChatGate
+import MobiusModel.LoginName
 /-! Oracle handlers for C05: the governing-privilege table and the handlers' decision model. -/
 namespace Oracle
 open Mobius Mobius.Spec Mobius.Authz
+
+
+/-- chat op token: `N:<who>:<0|1>:<newId>` invite-new, `J:<who>:<cid>` join, `L:…` leave, `S:<who>:<cid>` set subject,
+    `M:<who>:<0|1>:<cid>` private send, `D:<who>:<cid>` decline -/
+def chatOpOf (t : String) : Option ChatGate.Op :=
+  match t.splitOn ":" with
+  | ["N", w, p, n] => some (.inviteNew (num w) (flag p) (num n))
+  | ["J", w, c] => some (.join (num w) (num c))
+  | ["L", w, c] => some (.leave (num w) (num c))
+  | ["S", w, c] => some (.setSubject (num w) (num c) [115])
+  | ["M", w, p, c] => some (.send (num w) (flag p) (num c))
+  | ["D", w, c] => some (.decline (num w) (num c))
+  | _ => none
+
+def chatResStr : ChatGate.Res → String
+  | .denied => "denied" | .panicked => "panic" | .ok l => "ok:" ++ natsStr (l.toArray.qsort (· < ·)).toList
+
+def optField (s : String) : Option Bytes := if s == "absent" then none else some (hexb s)
+
+def nameEvOf (t : String) : Option LoginName.NameEv :=
+  match t.splitOn ":" with
+  | ["A", f] => some (.agreed (optField f))
+  | ["I", f] => some (.setInfo (optField f))
+  | _ => none
 
 def c05Handlers : List (String × Handler) := [
   -- authz <requester bitmap hex> <request class tokens…>  →  verdict | effects | out
@@ -9,6 +35,19 @@ def c05Handlers : List (String × Handler) := [
     | b :: req => match reqOf req with
       | some r => resultStr (run (bitmapOf b) r)
       | none => "bad-op"
+    | _ => "bad-op"),
+  -- chatgate <op tokens…> : per-op results, then the ids of the chats that exist
+  ("chatgate", fun (a : List String) =>
+    let (s, rs) := a.foldl (fun (acc : ChatGate.St × List String) t =>
+      match chatOpOf t with
+      | some o => let r := ChatGate.step acc.1 o; (r.1, acc.2 ++ [chatResStr r.2])
+      | none => (acc.1, acc.2 ++ ["bad-op"])) (ChatGate.St.init, [])
+    " ".intercalate rs ++ " | " ++ natsStr s.ids),
+  -- loginname <acct name hex|-> <any-name 0|1> <login field hex|absent> <events…> : announced at login, final name
+  ("loginname", fun (a : List String) => match a with
+    | an :: p :: lf :: evs =>
+      let evs' := evs.filterMap nameEvOf
+      s!"announced={LoginName.announcedAtLogin (hexb an) (flag p) (optField lf)} name={toHex (LoginName.session (hexb an) (flag p) (optField lf) evs')}"
     | _ => "bad-op"),
   -- governing <request class tokens…>  →  the protocol's governing privilege numbers for this class
   ("governing", fun (a : List String) => match reqOf a with
